@@ -560,7 +560,7 @@ def cfg_corpus(tier: str, seed: int):
                 add(d, cfg, "pair", decorate_p=0.25, atoms=[a, b])
         # triples
         triples = list(itertools.combinations(ATOMS, 3))
-        for t in rng.sample(triples, 20 if tier == "quick" else 600):
+        for t in rng.sample(triples, 20 if tier == "quick" else 1500):
             cfg = config_from_atoms(list(t), d)
             if cfg is not None:
                 add(d, cfg, "triple", decorate_p=0.3, atoms=list(t))
@@ -572,7 +572,7 @@ def cfg_corpus(tier: str, seed: int):
             without = [f] + (["range"] if f == "iter" else [])
             add(d, legalize(cfg_all(t, without=without), d), "all_but_one", decorate_p=0.3)
         # random subsets with parameters
-        for _ in range(15 if tier == "quick" else 150):
+        for _ in range(15 if tier == "quick" else 300):
             add(d, random_config(d, rng), "random", decorate_p=0.6)
         # adversarial custom names: every item takes the default name of another one
         swapped = {"MIN": "MAX", "MAX": "MIN", "next": "next_back", "next_back": "next", "as_str": "into", "into": "as_str",
